@@ -420,6 +420,14 @@ func isRowid(tableConstraint bool, typ string, dir sql.SortOrder) bool {
 // chapter 3). Rows written before an `ALTER TABLE ADD COLUMN` get their value
 // for the new column from here.
 func applyAffinity(typ string, v interface{}) interface{} {
+	b, isBool := v.(bool)
+	if isBool {
+		// DEFAULT TRUE / FALSE is the integer 1 / 0
+		v = int64(0)
+		if b {
+			v = int64(1)
+		}
+	}
 	t := strings.ToUpper(typ)
 	has := func(subs ...string) bool {
 		for _, s := range subs {
@@ -433,7 +441,8 @@ func applyAffinity(typ string, v interface{}) interface{} {
 	case has("INT"):
 		return numericAffinity(v, false)
 	case has("CHAR", "CLOB", "TEXT"):
-		if n, ok := v.(int64); ok {
+		if n, ok := v.(int64); ok && !isBool {
+			// (TRUE and FALSE are no literals: SQLite leaves them integers)
 			return strconv.FormatInt(n, 10)
 		}
 		return v
